@@ -431,6 +431,36 @@ C08-F26): the model, like the code, files it under 101 -/
 example : goodMsg .v10 ⟨0, 7, nbadbody, []⟩ = false := by decide +kernel
 example : (filings .v10 [] [nbadbody]).1 = [(101, nbadbody)] := by decide +kernel
 
+/-! ## the routing key is computed over the whole message, whatever the channel settings -/
+
+/-- `routing_independent_of_search_depth`: a read-loop iteration does the same thing for every
+`PromptSearchDepth`, `ReadDelay`, transport read size, return character and `TimeoutOps` the
+session was created with — the message-id (and the subscription id) of a complete message are
+looked for in the WHOLE message, wherever in it the attribute stands. (Trivial in the model, which
+has no such parameter; the correspondence runs sessions over all these settings, and the source
+fact below pins the argument of the pattern search.) -/
+theorem routing_independent_of_search_depth (cfg1 cfg2 : ChannelCfg) (v : Ver) (buf chunk : Bytes) :
+    bufStepWith cfg1 v buf chunk = bufStepWith cfg2 v buf chunk ∧
+      bufStepWith cfg1 v buf chunk = ((bufCut v buf chunk).1, (bufCut v buf chunk).2.bind keyOf) :=
+  ⟨rfl, bufStep_eq_cut v buf chunk⟩
+
+/-- regenerated syntactic fact: inside the end-of-message test of `(*Driver).read` the message-id
+pattern and the subscription-id pattern are run over exactly the expression that was tested and
+that is stored — the complete message buffer, no slice, no helper in between -/
+theorem id_patterns_search_the_whole_message :
+    Gen.C08ReadLoop.examinedBuffer ≠ "" ∧
+      Gen.C08ReadLoop.messageIDSearchArgs = [Gen.C08ReadLoop.examinedBuffer] ∧
+      Gen.C08ReadLoop.subscriptionIDSearchArgs = [Gen.C08ReadLoop.examinedBuffer] ∧
+      Gen.C08ReadLoop.storedMessageArgs = [Gen.C08ReadLoop.examinedBuffer, Gen.C08ReadLoop.examinedBuffer] := by
+  decide
+
+/-- negative witness: a reply whose `message-id` stands after 100 bytes of namespace declarations.
+The loop files it under 101; the variant that searches only the first 80 bytes files nothing. -/
+def farbody : Bytes := [60, 110, 99, 58, 114, 112, 99, 45, 114, 101, 112, 108, 121, 32, 120, 109, 108, 110, 115, 58, 110, 99, 61, 34, 117, 114, 110, 58, 105, 101, 116, 102, 58, 112, 97, 114, 97, 109, 115, 58, 120, 109, 108, 58, 110, 115, 58, 110, 101, 116, 99, 111, 110, 102, 58, 98, 97, 115, 101, 58, 49, 46, 48, 34, 32, 120, 109, 108, 110, 115, 58, 97, 61, 34, 117, 114, 110, 58, 97, 34, 32, 120, 109, 108, 110, 115, 58, 98, 61, 34, 117, 114, 110, 58, 98, 34, 32, 109, 101, 115, 115, 97, 103, 101, 45, 105, 100, 61, 34, 49, 48, 49, 34, 47, 62, 93, 93, 62, 93, 93, 62]
+example : goodReply .v10 ⟨101, farbody, []⟩ = true := by decide +kernel
+example : (bufStep .v10 [] farbody).2 = some (101, farbody) := by decide +kernel
+example : (bufStepHead 80 .v10 [] farbody).2 = none := by decide +kernel
+
 /-! ## histories: per-call deadlines (timed layer, `Netconf/StoreTimed.lean`) -/
 
 /-- every timed history (calls with their own timeouts, reads, polls, time passing during calls
